@@ -14,6 +14,7 @@ Handlers of the chart / schema area (`ldriver_chart`):
 * `patterns`   – account / asset / chart-segment patterns, lexer rules, chart patterns (C28)
 * `scriptlit`  – scripts with literal asset / account at the lexer edge, end to end (C28)
 * `postingval` – `Postings.Validate` (C28)
+* `scriptvar`  – script variables, meta()-sourced accounts, templates, postings form, end to end (C28)
 * `schemart`   – SchemaData (chart + templates + query templates) JSON round trip (C30)
 -/
 namespace Ledger.Driver
@@ -541,12 +542,63 @@ def handleSchemaRt : Handler := fun inp out => do
            note := if prop then "" else "C30: schema data changes across the JSON round trip",
            sig := if prop then "" else "C30:schema-roundtrip" }
 
+/-! ### scriptvar: variables / meta() / template / postings form, through the real controller -/
+
+def rawPostingOfJson (j : Json) : Except String RawPosting :=
+  match j with
+  | .arr #[.str s, .str d, .str a, .str n] => do
+    pure { source := s.toList, destination := d.toList, asset := a.toList, amount := some (← parseInt n) }
+  | _ => throw "bad posting"
+
+def handleScriptVar : Handler := fun inp out => do
+  let path ← strField inp "path"
+  let src := (← strField inp "src").toList
+  let dst := (← strField inp "dst").toList
+  let asset := (← strField inp "asset").toList
+  let amount := (← strField inp "amount").toList
+  let okJson (p : RawPosting) : Json :=
+    Json.mkObj [("err", ""), ("postings", Json.arr #[Json.arr #[.str (String.ofList p.source),
+      .str (String.ofList p.destination), .str (String.ofList p.asset), .str (toString (p.amount.getD 0))]]),
+      ("valid", true)]
+  let errJson (k : String) : Json := Json.mkObj [("err", Json.str k), ("postings", Json.arr #[]), ("valid", true)]
+  let model ←
+    if path = "var" || path = "template" || path = "meta" then
+      pure (match variablePosting src dst (asset ++ ' ' :: amount) with
+        | .ok p => okJson p | .error _ => errJson "vars")
+    else if path = "assetvar" then
+      pure (match assetVariablePosting src dst asset ['1', '0'] with
+        | .ok p => okJson p | .error _ => errJson "vars")
+    else if path = "postings" then
+      let p : RawPosting := { source := src, destination := dst, asset, amount := parseBigInt amount }
+      pure (match postingsValidate [p] 0 with
+        | none => okJson p | some _ => errJson "validate")
+    else throw s!"bad path {path}"
+  let agree := optStrField out "panic" = "" && jsonEq (pick out ["err", "postings", "valid"]) model
+  -- C28 on what the implementation committed
+  let gErr := optStrField out "err"
+  let gValid := match out.getObjVal? "valid" with | .ok (.bool b) => b | _ => false
+  let gPs ← (← arrField out "postings").mapM rawPostingOfJson
+  let wf := (postingsValidate gPs 0).isNone
+  let prop := gErr ≠ "" || (gValid && wf)
+  let padded (v : List Char) : Bool :=
+    let isWs := fun (c : Char) => c = ' ' || c = '\t' || c = '\n' || c = '\r'
+    match v, v.reverse with
+    | c :: _, d :: _ => isWs c || isWs d
+    | _, _ => false
+  pure { model, agree, prop, nontrivial := gErr = "",
+         tags := ["path:" ++ path, if gErr = "" then "committed" else "rejected:" ++ gErr] ++
+           (if padded src || padded dst || padded asset then ["padded-value"] else []),
+         note := if prop then "" else s!"committed posting is not well-formed (path {path})",
+         sig := if prop then "" else
+           (if path = "postings" then "C28:postings-path-outside-pattern" else "C28:variable-value-outside-pattern") }
+
 def chartHandlers : List (String × Handler) := [
   ("chartrt", handleChartRt),
   ("enforce", handleEnforce),
   ("patterns", handlePatterns),
   ("scriptlit", handleScriptLit),
   ("postingval", handlePostingVal),
+  ("scriptvar", handleScriptVar),
   ("schemart", handleSchemaRt)
 ]
 
